@@ -217,7 +217,7 @@ def monitor_case(ctx, case, labels, cost, do_brute):
 
 def run(ctx):
     rng = np.random.default_rng(ctx.seed)
-    ctx.proof_layer(allowed_axioms=R_AX, coq_deps=["Corr/RunViterbi"])
+    ctx.proof_layer(allowed_axioms=R_AX, coq_deps=["Corr/RunViterbi"], gen=["cluster_label_assignment"])
     core.note_drift(ctx, ANCHORS)
     n = ctx.budget(1500, 6000)
     tmax, kmax = (11, 4) if not ctx.thorough else (40, 10)
